@@ -439,7 +439,14 @@ class SBytes:
         if isinstance(items, SBytes):
             self.b = list(items.b)
         else:
-            self.b = [_byte(x) for x in items]
+            self.b = [x if type(x) is int and 0 <= x < 256 else _byte(x) for x in items]
+
+    @staticmethod
+    def _norm(items):
+        """from already normalised elements (ints / simplified BV8 terms): no re-simplification"""
+        r = SBytes.__new__(SBytes)
+        r.b = items
+        return r
 
     @staticmethod
     def lift(x):
@@ -467,7 +474,7 @@ class SBytes:
         if isinstance(i, slice):
             if any(isinstance(v, SInt) for v in (i.start, i.stop, i.step)):
                 i = slice(*(v.concretize() if isinstance(v, SInt) else v for v in (i.start, i.stop, i.step)))
-            return SBytes(self.b[i]).lower_if_concrete()
+            return SBytes._norm(self.b[i]).lower_if_concrete()
         if isinstance(i, SInt):
             i = i.concretize()
         return self._elt(self.b[i])
@@ -477,14 +484,14 @@ class SBytes:
 
     def __add__(self, o):
         if isinstance(o, (bytes, bytearray)):
-            return SBytes(self.b + list(o))
+            return SBytes._norm(self.b + list(o))
         if isinstance(o, SBytes):
-            return SBytes(self.b + o.b)
+            return SBytes._norm(self.b + o.b)
         return NotImplemented
 
     def __radd__(self, o):
         if isinstance(o, (bytes, bytearray)):
-            return SBytes(list(o) + self.b)
+            return SBytes._norm(list(o) + self.b)
         return NotImplemented
 
     def __mul__(self, n):
